@@ -240,7 +240,7 @@ fn prepare<G: Group>(sc: &Scenario, idx: usize, st: &mut RunStats, rng: &mut Sim
 }
 
 fn odd_member<G: Group>(sc: &Scenario, what: &Odd, rng: &mut SimRng) -> Option<(Context, RangeStatement<G>, RangeProof<G>)> {
-    let w = WitnessSpec { values: vec![1], promises: vec![None], blind_seed: rng.next_u64(), seed_nonce: None, zero_blind: vec![], same_as_prev: vec![], special_blind: None };
+    let w = WitnessSpec { values: vec![1], promises: vec![None], blind_seed: rng.next_u64(), seed_nonce: None, zero_blind: vec![], same_as_prev: vec![], same_as_first: vec![], special_blind: None };
     let ctx = Context { label: 1, extra: None };
     let (bits, ext) = match what {
         Odd::Bits => (if sc.bits == 64 { 32 } else { sc.bits * 2 }, sc.ext),
@@ -489,6 +489,9 @@ fn run<G: Group>(sc: &Scenario, st: &mut RunStats) -> Vec<Violation> {
                 if pos >= 256 {
                     st.probe("disagreeing_member_in_a_later_chunk");
                 }
+                if pos == members.len() && pos >= 8 && pos < 256 && (pos.is_power_of_two() || pos == 192) {
+                    st.probe("disagreeing_member_alone_behind_a_power_of_two");
+                }
                 if !is_err(&r) {
                     out.push(Violation::new(
                         "malformed_batch_not_refused",
@@ -540,7 +543,7 @@ impl Check for C03 {
     }
 
     fn rule(&self) -> String {
-        "each seeded run builds a pool of 6-24 valid and defective messages over one (bits, ext, generators) with mixed aggregation factors and capacities, obtains every member's singleton verdict and mask in each mode (reference model), then lets the seeded scheduler of a simulated verifier node form 10-40 batches (sizes 1..1100 with emphasis on 255/256/257/511/512/513, members drawn with repetition, invalid members placed at chosen positions incl. beyond the chunk limit, random permutation, swarm-chosen mode) plus malformed shapes and batches in which one member disagrees on bit length, extension degree or a generator - at any position, including alone at the start of a later chunk; non-trivial = at least one multi-member batch or malformed shape executed; distinct = distinct event-log hashes".into()
+        "each seeded run builds a pool of 6-24 valid and defective messages over one (bits, ext, generators) with mixed aggregation factors and capacities, obtains every member's singleton verdict and mask in each mode (reference model), then lets the seeded scheduler of a simulated verifier node form 10-40 batches (sizes 1..1100 with emphasis on 255/256/257/511/512/513, members drawn with repetition, invalid members placed at chosen positions incl. beyond the chunk limit, random permutation, swarm-chosen mode) plus malformed shapes and batches in which one member disagrees on bit length, extension degree or a generator - at any position, including alone at the start of a later chunk; non-trivial = at least one multi-member batch or malformed shape executed; distinct = distinct event-log hashes The disagreeing member also stands alone behind 8..192 agreeing members that start with the largest aggregate of the pool.".into()
     }
 
     fn assumptions(&self) -> Vec<String> {
@@ -648,9 +651,16 @@ impl Check for C03 {
                             big_budget -= 1;
                             (*rng.pick(&[257usize, 300, 512]), Some(*rng.pick(&[256usize, 256, 0])))
                         },
+                        // the disagreeing member alone behind a power-of-two number of agreeing members that
+                        // start with the largest aggregate of the pool (any partition of the batch by powers
+                        // of two, however it is derived, leaves it on its own)
+                        2 => (*rng.pick(&[8usize, 16, 32, 64, 128, 192]), Some(usize::MAX)),
                         _ => (rng.range(1, 6) as usize, None),
                     };
-                    let members: Vec<usize> = (0..k).map(|_| *rng.pick(&valid)).collect();
+                    let mut members: Vec<usize> = (0..k).map(|_| *rng.pick(&valid)).collect();
+                    if forced_pos == Some(usize::MAX) {
+                        members[0] = *valid.iter().max_by_key(|i| pool[**i].m).expect("a valid member");
+                    }
                     let what = match rng.below(4) {
                         0 => Odd::Bits,
                         1 => Odd::Ext,
@@ -810,6 +820,7 @@ impl Check for C03 {
             "shape_inconsistent_h",
             "shape_inconsistent_g",
             "disagreeing_member_in_a_later_chunk",
+            "disagreeing_member_alone_behind_a_power_of_two",
         ]
     }
 }
